@@ -4,6 +4,7 @@
 pub mod check;
 pub mod core;
 pub mod genplan;
+pub mod history;
 pub mod model;
 pub mod oracle_a;
 pub mod parser;
@@ -12,3 +13,4 @@ pub mod record;
 pub mod runa;
 pub mod shrink;
 pub mod world;
+pub mod worldc;
